@@ -98,6 +98,18 @@ func c15Run(src []byte) []c15Obs {
 					o.Print, o.Msg = "panic", msg
 				}
 			}
+			// ... and through a Restorer that shares a file set with other files (the decorator's, in practice)
+			if o.Print != "panic" {
+				if msg := guard(func() {
+					r := decorator.NewRestorer()
+					r.Fset = token.NewFileSet()
+					r.Fset.AddFile("other.go", -1, 4321)
+					var b bytes.Buffer
+					r.Fprint(&b, dst.Clone(f).(*dst.File))
+				}); msg != "" {
+					o.Print, o.Msg = "panic", "restorer with a shared file set: "+msg
+				}
+			}
 		}
 		out = append(out, o)
 	}
